@@ -270,8 +270,11 @@ def t1_twin(case, sess: Session):
         sys.setswitchinterval(1e-6)
         try:
             r = t1m.t1_propagate(NS(cfg=cfg), state, text)
+            # the same request again on the now warm stage cache (same process, same state): twice more
+            again = [t1m.t1_propagate(NS(cfg=cfg), state, text) for _ in range(case.get("recalls", 0))]
         finally:
             sys.setswitchinterval(old)
+        r._again = [(a.graph_deltas, {k: v for k, v in a.metrics.items() if k in ("pops", "iters", "propagations", "graphs_touched")}) for a in again]
         return r, tuple(order_seen)
 
     try:
@@ -297,6 +300,13 @@ def t1_twin(case, sess: Session):
             diff = {k: (base.get(k), mp.get(k)) for k in set(base) | set(mp) if base.get(k) != mp.get(k)}
             sess.violation("t1-parallel-counters-differ", case, diff)
             return
+        if getattr(rp, "_again", None):
+            sess.count("t1_twins_with_warm_recalls")
+            if rp._again != rs._again:
+                i_ = next(i for i, (a, b) in enumerate(zip(rp._again, rs._again)) if a != b)
+                sess.violation("t1-parallel-warm-recall-differs", case, {"recall": i_ + 1, "seq_deltas": len(rs._again[i_][0]), "par_deltas": len(rp._again[i_][0]),
+                                                                         "seq": rs._again[i_][1], "par": rp._again[i_][1]})
+                return
         if len(case["order"]) >= 2:
             sess.nontrivial.add(chash((case["text"], tuple(case["order"]), case["workers"], js)))
             if list(order_seen) != list(case["order"]):
@@ -318,7 +328,7 @@ def gen_t1_case(rng):
     order = list(graphs)
     rng.shuffle(order)
     return {"graphs": graphs, "text": text, "t1": t1, "order": order, "workers": rng.choice([2, 3, 8]), "perf_on": rng.random() < 0.5,
-            "metrics": rng.random() < 0.3, "repeats": 3}
+            "metrics": rng.random() < 0.3, "repeats": 3, "recalls": rng.choice([0, 2, 2])}
 
 
 # ------------------------------------------------------------------------------ T2 twins
@@ -442,6 +452,67 @@ def gen_merge_case(rng):
     return {"shards": shards, "tiers": tiers, "k": rng.choice([1, 2, 3, 4, 6, 8, 20])}
 
 
+# ------------------------------------------------------------------------------ shard views of a living index
+def shard_views_case(rng, sess: Session):
+    """The views handed to the fan-out must partition the index as it is NOW: after every mutation (add, wipe, refill to
+    the same size) the concatenation of the views' episodes is the index content, and searching the views and merging
+    equals searching the unsharded index (archive tier: the one tier collect_shard_hits can serve on this tree)."""
+    from clematis.engine.stages.t2.parallel import collect_shard_hits
+    from clematis.engine.stages.t2.shard import merge_tier_hits_across_shards_dict
+    from clematis.adapters.embeddings import DeterministicEmbeddingAdapter
+    from vlib.harness import build_index, iso_from_ms, NOW_MS
+    import numpy as np
+
+    enc = DeterministicEmbeddingAdapter(dim=32)
+    idx = build_index([])
+    w = rng.choice([2, 3, 4, 8])
+    serial = [0]
+
+    def mk(n):
+        out = []
+        for _ in range(n):
+            serial[0] += 1
+            out.append({"id": f"s{serial[0]}", "owner": "A", "text": " ".join(rng.sample(["hello", "world", "cat", "moon", "river", "tree"], 3)) + f" {serial[0]}",
+                        "ts": "2023-0%d-1%d T00:00:00Z".replace(" ", "") % (rng.randint(1, 9), rng.randint(0, 9)), "vec": "enc", "aux": {"importance": 0.5}})
+        return out
+
+    ops = []
+    for step in range(rng.randint(3, 7)):
+        op = rng.choice(["add", "add", "wipe-refill-same", "wipe-refill-other", "query"])
+        ops.append(op)
+        if op == "add":
+            for e in build_index(mk(rng.randint(1, 6)))._eps:
+                idx.add(e)
+        elif op.startswith("wipe"):
+            n = len(idx._eps)
+            idx.clear()
+            for e in build_index(mk(n if op.endswith("same") else rng.randint(0, 8)))._eps:
+                idx.add(e)
+        views = list(idx._iter_shards_for_t2("exact_semantic", suggested=w))
+        got = []
+        for v in views:
+            got += [e.get("id") for e in (v._eps if v is idx else v._episodes)]
+        sess.evaluations += 1
+        sess.count("shard_view_checks")
+        case = {"ops": list(ops), "workers": w, "n": len(idx._eps)}
+        if len(views) >= 2:
+            sess.count("shard_view_checks_2plus_views")
+            sess.nontrivial.add(chash(("views", tuple(ops), w, len(idx._eps))))
+        if got != [e.get("id") for e in idx._eps]:
+            sess.violation("shard-views-do-not-partition-the-current-index", case, {"views": got[:8], "index": [e.get("id") for e in idx._eps][:8]})
+            return
+        q = np.asarray(enc.encode([rng.choice(["hello world", "cat moon", "river tree"])])[0], dtype=np.float32)
+        whole = collect_shard_hits(idx, ["archive"], None, q, 4, iso_from_ms(NOW_MS), -1.0, 3)
+        parts = [collect_shard_hits(v, ["archive"], None, q, 4, iso_from_ms(NOW_MS), -1.0, 3) for v in views]
+        a, _ = merge_tier_hits_across_shards_dict([whole], ["archive"], 4)
+        b, _ = merge_tier_hits_across_shards_dict(parts, ["archive"], 4)
+        if a:
+            sess.count("shard_view_searches_with_hits")
+        if [(h["id"], round(float(h["score"]), 9)) for h in a] != [(h["id"], round(float(h["score"]), 9)) for h in b]:
+            sess.violation("shard-search-differs-from-unsharded-search", case, {"unsharded": [h["id"] for h in a], "sharded": [h["id"] for h in b]})
+            return
+
+
 # ------------------------------------------------------------------------------ driver
 def _work(args):
     what, tier, seed, payload = args
@@ -461,6 +532,10 @@ def _work(args):
             rng = random.Random(f"C09/t2/{seed}/{payload}")
             for _ in range(8 if tier == "quick" else 150):
                 t2_twin(gen_t2_case(rng), sess)
+        elif what == "views":
+            rng = random.Random(f"C09/views/{seed}/{payload}")
+            for _ in range(40 if tier == "quick" else 1500):
+                shard_views_case(rng, sess)
         elif what == "merge":
             rng = random.Random(f"C09/merge/{seed}/{payload}")
             for _ in range(300 if tier == "quick" else 6000):
@@ -483,6 +558,7 @@ def main(tier: str, seed: int):
     jobs += [("t1", tier, seed, i) for i in range(5 if tier == "quick" else 14)]
     jobs += [("t2", tier, seed, i) for i in range(5 if tier == "quick" else 14)]
     jobs += [("merge", tier, seed, i) for i in range(2 if tier == "quick" else 8)]
+    jobs += [("views", tier, seed, i) for i in range(2 if tier == "quick" else 8)]
     for ex in par.pmap(_work, jobs):
         sess.merge(ex)
     sess.extra["helper_cases_generated"] = len(cases)
@@ -492,6 +568,8 @@ def main(tier: str, seed: int):
     sess.require("t2_twins", 30)
     sess.require("t2_twins_with_2plus_shards", 10)
     sess.require("shard_merge_cases", 500)
+    sess.require("shard_view_checks_2plus_views", 100)
+    sess.require("t1_twins_with_warm_recalls", 20)
     sess.require("shard_merge_cases_with_ids_redelivered_by_later_tier", 50)
     sess.finish()
 
